@@ -229,12 +229,12 @@ def afterTqWritable (r : Gen.Res Bool × TQSt) : TQ :=
   | .ok b => { r.2.s with armed := !b }
   | _ => r.2.s
 
-theorem isA_sys_rt' : Gen.ExnClass.isA .system_error .runtime_error = true := rfl
-theorem dec_len' {α : Type} (l : List α) : decide (((l.length : Int) + 1) = 1) = l.isEmpty := by
+theorem isA_sys_rt_udp : Gen.ExnClass.isA .system_error .runtime_error = true := rfl
+theorem dec_len_udp {α : Type} (l : List α) : decide (((l.length : Int) + 1) = 1) = l.isEmpty := by
   cases l <;> simp <;> omega
 
 macro "tie_tq_simp" : tactic => `(tactic| (
-  simp (disch := omega) only [Gen.DriverSendTo, Gen.M.bind, Gen.M.pure, Gen.M.throw, Gen.M.tryCatch, isA_sys_rt', t_qSize,
+  simp (disch := omega) only [Gen.DriverSendTo, Gen.M.bind, Gen.M.pure, Gen.M.throw, Gen.M.tryCatch, isA_sys_rt_udp, t_qSize,
     t_qEmpty, t_qPop, t_bufferSize, t_promiseSetValue, t_promiseSetException, t_sockSendTo, List.length_cons,
     List.length_nil, List.isEmpty_cons, List.isEmpty_nil, if_pos, if_neg, if_true, if_false, ite_true, ite_false,
     Bool.true_eq_false, Bool.false_eq_true, Int.toNat_natCast, upd_same]))
@@ -250,7 +250,7 @@ theorem tie_DriverSendTo (fuel : Nat) (s : TQ) (a : TAns) (hd : s.destroyed = fa
     tie_tq_simp
     simp [afterTqWritable, tqStep]
   | cons e rest =>
-    cases a <;> tie_tq_simp <;> simp [afterTqWritable, tqStep, dec_len']
+    cases a <;> tie_tq_simp <;> simp [afterTqWritable, tqStep, dec_len_udp]
 
 /-- the UDP enqueue side is the same template as the TCP one (tied to the model in Props/C02 `tie_AsyncSend`): for
 EVERY world, `SendTo` does what `Send` does - lock, read `q.empty()`, `emplace`, unlock, arm iff the queue was empty -/
